@@ -4,6 +4,7 @@
   10^19) never fails on valid operands.  Final statements only; proofs in `Proofs/`.
 -/
 import Proofs.Div
+import Properties.C06Rec
 
 namespace Decimal.C06
 open Decimal Decimal.L0
@@ -174,5 +175,25 @@ example : div [9999999999999999999, 5, 0, 9999999999999999999]
 #print axioms div_total
 #print axioms div_no_error
 #print axioms div_eq_divmod
+
+/-! ### Recursive division (Burnikel–Ziegler; `divRecursive`, `divRecursiveStep`, divisors of at least
+    `divRecursiveThreshold` = 100 words). Statements and proofs: `Properties/C06Rec.lean`, `Proofs/DivRec*.lean`;
+    re-exported here so that the per-run audit of this module lists them with their axioms. -/
+
+theorem bz_lower : type_of% @C06Rec.bz_lower := @C06Rec.bz_lower
+theorem bz_upper : type_of% @C06Rec.bz_upper := @C06Rec.bz_upper
+theorem bz_upper_words : type_of% @C06Rec.bz_upper_words := @C06Rec.bz_upper_words
+theorem divBasic_gen : type_of% @C06Rec.divBasic_gen := @C06Rec.divBasic_gen
+theorem divRecStep_total : type_of% @C06Rec.divRecStep_total := @C06Rec.divRecStep_total
+theorem divRecStep_spec : type_of% @C06Rec.divRecStep_spec := @C06Rec.divRecStep_spec
+theorem divRecStep_no_error : type_of% @C06Rec.divRecStep_no_error := @C06Rec.divRecStep_no_error
+theorem divRecursive_total : type_of% @C06Rec.divRecursive_total := @C06Rec.divRecursive_total
+theorem divLargeRec_total : type_of% @C06Rec.divLargeRec_total := @C06Rec.divLargeRec_total
+theorem divLargeRec_spec : type_of% @C06Rec.divLargeRec_spec := @C06Rec.divLargeRec_spec
+theorem divFull_total : type_of% @C06Rec.divFull_total := @C06Rec.divFull_total
+theorem divFull_spec : type_of% @C06Rec.divFull_spec := @C06Rec.divFull_spec
+theorem divFull_no_error : type_of% @C06Rec.divFull_no_error := @C06Rec.divFull_no_error
+theorem divFull_eq_div : type_of% @C06Rec.divFull_eq_div := @C06Rec.divFull_eq_div
+theorem divFull_production : type_of% @C06Rec.divFull_production := @C06Rec.divFull_production
 
 end Decimal.C06
